@@ -420,6 +420,10 @@ struct Value {
     void do_addr_to_spk() {
         // addresses are base58-check encoded, so we decode them first
         do_base58chkdec();
+        if (data.empty()) {
+            // decode failed
+            return;
+        }
         // they are now prefixed with a 0x00; rip that out
         data.erase(data.begin());
         // wrap in appropriate script fluff
@@ -472,6 +476,10 @@ struct Value {
             return;
         }
         auto bech = result.data;
+        if (bech.empty()) {
+            fprintf(stderr, "failed to bech32(m)-decode string: no data\n");
+            return;
+        }
         // Bech32(m) decoding
         int version = bech[0]; // The first 5 bit symbol is the witness version (0-16)
         // data = r.second;
